@@ -37,7 +37,9 @@ Cmds == [
     wdone   |-> C("wd", "p2", TRUE, {Def("a11", {})}),
     bogus   |-> C("unknown", "none", FALSE, {}),
     badrt   |-> C("ann", "p7", FALSE, {Def("*", {})}),
-    badval  |-> C("ann", "p8", FALSE, {Def("*", {})}) ]
+    badval  |-> C("ann", "p8", FALSE, {Def("*", {})}),
+    \* one command carrying two routes, the first valid (p9), the second not (no next hop): an error, and p9 in no RIB
+    halfbad |-> C("ann", "p9", FALSE, {Def("*", {})}) ]
 CmdIds == DOMAIN Cmds
 
 Matches(n, d) == (d.addr = "*" \/ d.addr = Attr[n].addr) /\ \A t \in d.terms : Attr[n][t[1]] = t[2]
